@@ -104,6 +104,12 @@ class Exec(Interp):
                         cur = v[1][i]
                         variant = None
                         continue
+                if v[0] == 'closure':
+                    i = e['i']          # captured variables are the fields of the closure value
+                    if i < len(v[2]):
+                        cur = v[2][i]
+                        variant = None
+                        continue
                 if v[0] == 'adt':
                     vn = variant
                     if vn is None:
@@ -1145,6 +1151,11 @@ class Exec(Interp):
             if cb is not None and cb.arg_count == len(args) and chain.count(cb.id) < 3:
                 return self.run_fn(cb, st, args, chain + [cb.id], depth + 1)
             # a tuple-variant / tuple-struct constructor used as a function: builds the value, cannot fail
+            sa_ = self.f.adts.get(fnv[1])
+            if sa_ is not None and len(sa_['variants']) == 1 and len(sa_['variants'][0]['fields']) == len(args):
+                v_ = sa_['variants'][0]         # tuple struct used as a function (`.map(Self)`)
+                fl = {fd['name']: self.alloc(st, a) for fd, a in zip(v_['fields'], args)}
+                return [(st, ('adt', fnv[1], frozenset([v_['name']]), {v_['name']: fl}))]
             if '::' in fnv[1]:
                 ap, vn = fnv[1].rsplit('::', 1)
                 adt = self.f.adts.get(ap)
@@ -1466,6 +1477,33 @@ class Exec(Interp):
             return [(st, ('float', -INF, INF, True))]
         if tr.endswith('OHLCV') and (c.get('res') or {}).get('kind') in ('Virtual', None):
             return [(st, self.dest_top(st, fr, t))]
+        if d.startswith('core::bool::<impl bool>::') and name in ('then', 'then_some') and len(A) == 2 and A[0][0] == 'bool':
+            # Some(f()) / Some(v) when the flag holds, None otherwise
+            outs = []
+            tv = st.bv.get(A[0][1])
+            if tv is not False:
+                s2 = st.copy()
+                try:
+                    self.assume_bool(s2, A[0][1], True)
+                    if name == 'then_some':
+                        outs.append((s2, self.mk_option(s2, some=A[1])))
+                    else:
+                        res2 = self.call_value(s2, A[1], [], chain, depth)
+                        if res2 is None:
+                            outs.append((s2, self.dest_top(s2, fr, t)))
+                        else:
+                            for s3, rv3 in res2:
+                                outs.append((s3, self.mk_option(s3, some=rv3)))
+                except Infeasible:
+                    pass
+            if tv is not True:
+                s2 = st.copy()
+                try:
+                    self.assume_bool(s2, A[0][1], False)
+                    outs.append((s2, self.mk_option(s2, none=True)))
+                except Infeasible:
+                    pass
+            return outs
         # ---- Option / Result combinators ----------------------------------------------------------------------------------
         if d.startswith('std::result::Result::<') or d.startswith('std::option::Option::<'):
             v = dv(A[0]) if A else None
@@ -1532,8 +1570,66 @@ class Exec(Interp):
                 if v[2] - {good}:
                     outs.append((st.copy(), A[1]))
                 return outs
+            if name in ('map', 'and_then') and v and v[0] == 'adt' and v[2] is not None and len(A) == 2 and A[1][0] in ('fn', 'fnset', 'closure'):
+                # apply the function to the payload on the good variant, pass the other variant through unchanged
+                is_res = v[1].endswith('Result')
+                good = 'Ok' if is_res else 'Some'
+                outs = []
+                decided = True
+                if good in v[2]:
+                    s2 = st.copy()
+                    res2 = self.call_value(s2, A[1], [s2.cells[v[3][good]['0']]], chain, depth)
+                    if res2 is None:
+                        decided = False
+                    else:
+                        for s3, rv3 in res2:
+                            if name == 'and_then':
+                                outs.append((s3, rv3))
+                            else:
+                                outs.append((s3, self.mk_result(s3, rv3, None) if is_res else self.mk_option(s3, some=rv3)))
+                if decided:
+                    if v[2] - {good}:
+                        s2 = st.copy()
+                        if is_res:
+                            outs.append((s2, self.mk_result(s2, None, s2.cells[v[3]['Err']['0']]) if 'Err' in v[3] and '0' in v[3]['Err'] else self.mk_result(s2, None, ('top', 'err'))))
+                        else:
+                            outs.append((s2, self.mk_option(s2, none=True)))
+                    return outs
+            if name == 'filter' and v and v[0] == 'adt' and v[2] is not None and len(A) == 2 and not v[1].endswith('Result') and A[1][0] in ('fn', 'fnset', 'closure'):
+                outs = []
+                decided = True
+                if 'Some' in v[2]:
+                    s2 = st.copy()
+                    pc = v[3]['Some']['0']
+                    res2 = self.call_value(s2, A[1], [('ref', pc)], chain, depth)
+                    if res2 is None:
+                        decided = False
+                    else:
+                        for s3, rv3 in res2:
+                            tv = s3.bv.get(rv3[1]) if rv3[0] == 'bool' else None
+                            if tv is not False:
+                                s4 = s3.copy()
+                                try:
+                                    if rv3[0] == 'bool':
+                                        self.assume_bool(s4, rv3[1], True)
+                                    outs.append((s4, self.mk_option(s4, some=s4.cells[pc])))
+                                except Infeasible:
+                                    pass
+                            if tv is not True:
+                                s4 = s3.copy()
+                                try:
+                                    if rv3[0] == 'bool':
+                                        self.assume_bool(s4, rv3[1], False)
+                                    outs.append((s4, self.mk_option(s4, none=True)))
+                                except Infeasible:
+                                    pass
+                if decided:
+                    if 'None' in v[2]:
+                        s2 = st.copy()
+                        outs.append((s2, self.mk_option(s2, none=True)))
+                    return outs
             if name in ('unwrap_or_else', 'map', 'and_then', 'unwrap_or_default', 'is_some', 'is_none', 'is_ok', 'is_err', 'take', 'cloned', 'copied',
-                        'as_ref', 'as_mut', 'ok', 'err'):
+                        'as_ref', 'as_mut', 'ok', 'err', 'filter'):
                 if name in ('is_some', 'is_ok', 'is_none', 'is_err') and v and v[0] == 'adt' and v[2] is not None:
                     good = 'Ok' if v[1].endswith('Result') else 'Some'
                     pos = name in ('is_some', 'is_ok')
